@@ -111,40 +111,7 @@ Qed.
 Theorem tensor_innerprod_decides s u : guard_tensor_innerprod s u = decide (pre_tensor_innerprod s u).
 Proof. reflexivity. Qed.
 
-(* permute: the code is weaker than the precondition (A-28 and negative axes) *)
-Definition tensor_permute_stmt : Prop :=
-  forall s order, guard_tensor_permute s order = decide (pre_tensor_permute s order).
-
-Theorem tensor_permute_refuted : ~ tensor_permute_stmt.
-Proof. intros H. specialize (H [4] [1]). vm_compute in H. discriminate. Qed.
-
-Theorem tensor_permute_refuted_2way : guard_tensor_permute [2; 3] [1; 1] = Ok tt /\ pre_tensor_permute [2; 3] [1; 1] = false.
-Proof. split; reflexivity. Qed.
-
-Theorem tensor_permute_refuted_negative : guard_tensor_permute [2; 3] [-1; 0] = Ok tt /\ pre_tensor_permute [2; 3] [-1; 0] = false.
-Proof. split; reflexivity. Qed.
-
-Definition all_ones (o : vec) : bool := negb (zlen o =? 0) && forallb (fun x => x =? 1) o.
-
-Theorem tensor_permute_partial s order :
-  all_ones order = false -> (forall x, In x order -> 0 <= x) ->
-  guard_tensor_permute s order = decide (pre_tensor_permute s order).
-Proof.
-  intros Hone Hnn. apply decide_by. unfold guard_tensor_permute, pre_tensor_permute. okb.
-  unfold all_ones in Hone.
-  destruct (zlen order =? 0) eqn:E0.
-  - cbn. rewrite andb_true_r. apply Z.eqb_eq in E0. unfold is_permb. rewrite E0.
-    destruct order; [|unfold zlen in E0; cbn in E0; lia]. cbn. now rewrite andb_true_r.
-  - cbn in Hone. rewrite Hone. okb. rewrite np_transpose_ok_nonneg by auto.
-    unfold is_permb. rewrite (Z.eqb_sym (ndim s)). now rewrite andb_assoc, andb_diag.
-Qed.
-
-(* the rejection half holds without side condition on the all-ones shortcut only for the length test *)
-Theorem tensor_permute_rejects_length s order : zlen order <> ndim s -> guard_tensor_permute s order = Err.
-Proof.
-  intros H. unfold guard_tensor_permute. destruct (ndim s =? zlen order) eqn:E; [|reflexivity].
-  apply Z.eqb_eq in E. congruence.
-Qed.
+(* permute: after sorted_perm_bool below *)
 
 (* element-wise binary operations: tenfun_binary compares the shapes before numpy sees them (C19-N02 repaired) *)
 Lemma bcast_rev_refl a : bcast_rev a a = true.
@@ -248,6 +215,52 @@ Proof.
   intros HN. pose proof (sorted_perm_decides (repeat 0 (Z.to_nat N)) o) as H.
   unfold guard_sorted_perm, pre_perm, ndim, zlen in H. rewrite repeat_length, Z2Nat.id in H by lia.
   apply (f_equal is_ok) in H. now rewrite is_ok_chk, is_ok_decide in H.
+Qed.
+
+(* ---- tensor.permute (C19-N01 repaired: the order is compared with range(ndims) before np.transpose); the
+   "(order == 1).all()" shortcut is left on 1-way tensors, where it answers the invalid order [1] (A-28, known) ---- *)
+Definition tensor_permute_stmt : Prop :=
+  forall s order, guard_tensor_permute s order = decide (pre_tensor_permute s order).
+
+Theorem tensor_permute_refuted : ~ tensor_permute_stmt.
+Proof. intros H. specialize (H [4] [1]). vm_compute in H. discriminate. Qed.
+
+(* the former witnesses of C19-N01 and of A-28 on a matrix are rejected now *)
+Theorem tensor_permute_rejects_2way : guard_tensor_permute [2; 3] [1; 1] = Err /\ pre_tensor_permute [2; 3] [1; 1] = false.
+Proof. split; reflexivity. Qed.
+Theorem tensor_permute_rejects_negative : guard_tensor_permute [2; 3] [-1; 0] = Err /\ pre_tensor_permute [2; 3] [-1; 0] = false.
+Proof. split; reflexivity. Qed.
+
+Definition all_ones (o : vec) : bool := negb (zlen o =? 0) && forallb (fun x => x =? 1) o.
+
+Lemma is_permb_entries_nonneg N o : is_permb N o = true -> forall x, In x o -> 0 <= x.
+Proof.
+  unfold is_permb, modes_ok. intros H x Hx. apply andb_true_iff in H as [_ H]. apply andb_true_iff in H as [H _].
+  rewrite forallb_forall in H. specialize (H x Hx). unfold in_range in H. apply andb_true_iff in H as [H _].
+  now apply Z.leb_le in H.
+Qed.
+
+(* every request except an all-ones order on a 1-way tensor (that is: order [1]) *)
+Theorem tensor_permute_partial s order :
+  (ndim s =? 1) && all_ones order = false ->
+  guard_tensor_permute s order = decide (pre_tensor_permute s order).
+Proof.
+  intros Hone. apply decide_by. unfold guard_tensor_permute, pre_tensor_permute. okb.
+  unfold all_ones in Hone.
+  destruct (zlen order =? 0) eqn:E0.
+  - cbn. rewrite andb_true_r. apply Z.eqb_eq in E0. unfold is_permb. rewrite E0.
+    destruct order; [|unfold zlen in E0; cbn in E0; lia]. cbn. now rewrite andb_true_r.
+  - cbn [negb andb] in Hone. rewrite Hone. okb. rewrite sorted_perm_bool by (unfold ndim, zlen; lia).
+    destruct (is_permb (ndim s) order) eqn:P; cbn [andb]; [|apply andb_false_r].
+    rewrite np_transpose_ok_nonneg by (eapply is_permb_entries_nonneg; eauto). rewrite P.
+    unfold is_permb in P. apply andb_true_iff in P as [P _]. rewrite Z.eqb_sym. now rewrite P.
+Qed.
+
+(* the rejection half holds without side condition for the length test *)
+Theorem tensor_permute_rejects_length s order : zlen order <> ndim s -> guard_tensor_permute s order = Err.
+Proof.
+  intros H. unfold guard_tensor_permute. destruct (ndim s =? zlen order) eqn:E; [|reflexivity].
+  apply Z.eqb_eq in E. congruence.
 Qed.
 
 Lemma forallb_is_ok_chk {A} (f : A -> bool) l : forallb (fun x => is_ok (chk (f x))) l = forallb f l.
